@@ -5,7 +5,7 @@ from sim import seams
 from sim import engine_b as B
 from sim.kernel import EventLog, stream, weighted
 
-CLOCKS = ("steady", "frozen", "forward-jumps", "backward-jumps", "near-min", "near-max", "huge-steps")
+CLOCKS = seams.SimClock.BEHAVIOURS
 
 
 def profile(prop, tier):
@@ -22,7 +22,7 @@ def profile(prop, tier):
         p["clients"] = {"coder": 2, "designer": 0.5, "converter": 2, "analyst": 1.5, "shuffler": 0.3, "trimmer": 8,
                         "rng": 0.3, "clock": 0.3}
         p["max_ops"] = (15, 60) if q else (30, 160)
-        p["k_weights"] = [(2, 5), (3, 2)]
+        p["k_weights"] = [(2, 5), (3, 2), (4, 0.3)]
     elif prop == "C17":
         p["clients"] = {"coder": 0.5, "designer": 0.3, "converter": 0.5, "analyst": 8, "shuffler": 2, "trimmer": 0.5,
                         "rng": 3, "clock": 0.3}
@@ -180,13 +180,11 @@ class Sim(object):
 
     def new_pair(self):
         rng = self.rng
+        kmax = 4 if self.prop == "C19" else 3
         graphs = [n[:-4] for n in self.world.store.names("acc") if not self.world.store.meta[n].get("pair")
-                  and self.k_of(n) <= 3 and M.arcs(self.rows_of(n))]
+                  and self.k_of(n) <= kmax and M.arcs(self.rows_of(n))]
         if not graphs:
             return None
-        if self.prop == "C19" and rng.random() < 0.5:
-            # trim generated designs, as the experiments do
-            src = None
         name = self.fresh_name("P")
         new = {"op": "NEW", "kind": "pair", "name": name, "from": rng.choice(graphs), "numpy_keys": rng.random() < 0.5}
         if rng.random() < 0.3:
@@ -364,10 +362,14 @@ class Sim(object):
             return {"op": "CALL", "fn": fn, "args": {"vertex_index": ["lit", rng.randrange(4 ** self.k_of(lm))],
                                                     "depth": ["lit", rng.randint(0, 3)], "latter_map": ["ref", lm]}}
         k = rng.choice([1, 2, 3])
-        if fn == "get_complete_accessor" and self.prop == "C20" and rng.random() < 0.25:
-            # thousands of progress states in one verbose call (results of this size are not kept in the store)
+        if fn == "get_complete_accessor" and self.prop == "C20" and rng.random() < 0.35:
+            # thousands of progress states in one verbose call (results of this size are not kept in the store), half of
+            # the time right after the clock starts misbehaving (a fault placed inside the operation that it can hurt)
+            if rng.random() < 0.5:
+                self.do({"op": "CLOCK", "behaviour": rng.choice(["huge-steps", "epoch-correction", "backward-jumps",
+                                                                  "frozen"]), "cseed": rng.getrandbits(20)})
             return {"op": "CALL", "fn": "get_complete_accessor", "verbose": True,
-                    "args": {"observed_length": ["lit", rng.choice([5, 6])]}}
+                    "args": {"observed_length": ["lit", rng.choice([5, 6, 7, 8, 8])]}}
         if fn in ("obtain_formers", "obtain_latters"):
             return {"op": "CALL", "fn": fn, "args": {"current": ["lit", rng.randrange(4 ** k)],
                                                     "observed_length": ["lit", k]}}
@@ -429,10 +431,13 @@ class Sim(object):
         p = rng.choice(pairs)
         ins, dele = self.flags.get(p, (True, True))
         model = self.world.pairs[p]
-        return {"op": "CALL", "fn": "remove_nasty_arc", "verbose": self.verbose(),
-                "args": {"accessor": ["ref", p + ".acc"], "latter_map": ["ref", p + ".lm"],
-                         "iteration": ["lit", model["removed"]], "has_insertion": ["lit", ins],
-                         "has_deletion": ["lit", dele]}}
+        op = {"op": "CALL", "fn": "remove_nasty_arc", "verbose": self.verbose(),
+              "args": {"accessor": ["ref", p + ".acc"], "latter_map": ["ref", p + ".lm"],
+                       "iteration": ["lit", model["removed"]], "has_insertion": ["lit", ins],
+                       "has_deletion": ["lit", dele]}}
+        if rng.random() < 0.2:
+            op["no_prescore"] = True     # two removals in a row with no scoring call of the harness in between
+        return op
 
     def client_owner(self):
         """The owner of something the library handed back edits it in place."""
